@@ -293,8 +293,8 @@ theorem exec_cfgOK {s s' : State} {op : Op} (hI : Inv s) (hC : CfgOK s) (h : exe
         rcases hcf with rfl | rfl
         · simp
         · exact hd0
-      | purchase a offer so hso hse he hna => simp [cleared]
-      | complete a so b hso hb he ha => simp [cleared]
+      | purchase a offer so hso hsel hse he hna => simp [cleared]
+      | complete a so b hso hsel hb he ha => simp [cleared]
       | accept pfx id m bo hg hna hn he hso hb => simp [cleared]
 
 theorem run_inv_cfgOK {s : State} (ops : List Op) (hI : Inv s) (hC : CfgOK s) :
